@@ -3,8 +3,9 @@
 From Coq Require Extraction.
 From Coq Require Import ExtrOcamlBasic.
 From Coq Require Import List ZArith NArith.
-From Muduo Require Import Base_Bytes C04_Model C05_Model Gen_C04 Gen_C05 C05_GenRun.
+From Muduo Require Import Base_Bytes C04_Model C05_Model C05_PoolSysModel Gen_C04 Gen_C05 C05_GenRun.
 Extraction "model.ml" C05_Model.estep C05_Model.einit C05_Model.enabled_any C05_Model.fcode_at
-  C04_Model.poll_ready C05_Model.pool_run C05_Model.pinned_pshape C05_Model.pinned_eshape
+  C04_Model.poll_ready C05_PoolSysModel.pstep C05_PoolSysModel.pinit C05_PoolSysModel.o_past_start
+  C05_PoolSysModel.o_done C05_Model.pool_run C05_Model.pinned_pshape C05_Model.pinned_eshape
   Gen_C04.gen_shape Gen_C05.gen_eshape C05_GenRun.gen_pool_run
   Base_Bytes.xbyte_of_N Base_Bytes.xN_of_byte Base_Bytes.xanchor.
